@@ -74,6 +74,41 @@ def stream_sbridge(ctx: Ctx):
                     return "FEmpty"
                 return f"(FAtom {atom_clause(m.op, m.value)})"
             cases.append((f"BBack {VN[name]} {cs} {sparse._res(lambda s=s, name=name: MarkerExpression.from_specifier(name, s), rnd)}", f"back: from_specifier({name}, {t!r})"))
+    # -- _merge_single_markers on two atoms of ONE version-like variable (cache bypassed)
+    from dep_logic.markers import single as S
+    from dep_logic.markers.multi import MultiMarker
+    from dep_logic.markers.union import MarkerUnion
+    merge = getattr(S._merge_single_markers, "__wrapped__", S._merge_single_markers)
+    for name, ls in lits.items():
+        atoms = []
+        for op in OPS:
+            for lit in ls[:7] + (["3.*"] if op in ("==", "!=") and name != "platform_release" else []):
+                if op == "~=" and "." not in lit.split("!")[-1]:
+                    continue
+                if "*" in lit and op not in ("==", "!="):
+                    continue
+                try:
+                    atoms.append((MarkerExpression(name, op, lit), atom_clause(op, lit)))
+                except Exception:  # noqa: BLE001
+                    continue
+        pairs = [(a, b) for a in atoms for b in atoms]
+        rng.shuffle(pairs)
+        for (m1, k1), (m2, k2) in pairs[:160]:
+            for kind, cls in ((True, MultiMarker), (False, MarkerUnion)):
+                def rnd(r, m1=m1, m2=m2):
+                    if r is None:
+                        return "VMNone"
+                    if r is m1:
+                        return "VMFirst"
+                    if r is m2:
+                        return "VMSecond"
+                    if isinstance(r, AnyMarker):
+                        return "VMAny"
+                    if isinstance(r, EmptyMarker):
+                        return "VMEmpty"
+                    return f"(VMAtom {atom_clause(r.op, r.value)})"
+                cases.append((f"BMerge {coqrun.cbool(kind)} {VN[name]} {k1} {k2} {sparse._res(lambda: merge(m1, m2, cls), rnd)}",
+                              f"merge: {m1} {'&' if kind else '|'} {m2}"))
     terms = [c[0] for c in cases]
     total, bad, errs = coqrun.eval_cases(terms, f"{ctx.prop}-sbridge", mod="Corr SpecParse CorrParse Bridge", casety="bcase", runner="run_bcases", shard=400, timeout=300)
     ctx.count("S-bridge", total)
